@@ -283,3 +283,10 @@ def run(m):
     v = r["violations"]
     return {"failing": bool(v), "witness": v[0]["witness"] if v else "modes", "call": v[0]["source"] if v else "mode sweep", "result": v[0]["got"] if v else "ok"}
 '''
+
+
+# ---- WARN mode formats the suppressed error for its warning (str(exc) -> detailed message ->
+# ---- _error_context): locating a position inside the source is total (C20's contract, for C03)
+from contracts.C20 import _line_col  # noqa: E402
+
+_line_col("liquid.exceptions:LiquidError._error_context", "liquid.exceptions:LiquidError", lambda c, index: c.obj("liquid.exceptions:LiquidError", "err"), lambda text, index: [text, index], 5, prop="C03")
